@@ -10,7 +10,7 @@
 From Coq Require Import ZArith List Lia Bool.
 From MomoCommon Require Import GenPrelude.
 From C01 Require Import HashModel ListAux.
-From C01 Require Gen_LimP4 Gen_Open2N2 Gen_OpenN1.
+From C01 Require Gen_LimP4 Gen_Open2N2 Gen_Open2N2w Gen_OpenN1.
 Import ListNotations.
 Local Open Scope Z_scope.
 
@@ -101,3 +101,75 @@ Theorem openn1_find_complete (h : Z -> Z) : (forall k, 0 <= h k < 2 ^ 64) -> for
   Forall (fun s => Gen_OpenN1.emptyShortHash <= s) empties ->
   find_sh (map (tag h Gen_OpenN1.ptCalcShortHash) its ++ empties) its (Gen_OpenN1.ptCalcShortHash (h k)) k i = Some (bfind k its i).
 Proof. intros Hh k. apply bucket_find_complete. intros k0. apply openn1_sh_lt. apply Hh. Qed.
+
+(* Open2N2 with useHashCodePartGetter = false: 16-bit short hashes, emptyShortHash = 1 << 15 *)
+Lemma open2n2w_sh_lt hc : 0 <= hc < 2 ^ 64 -> 0 <= Gen_Open2N2w.pvCalcShortHash hc < 32768.
+Proof.
+  intros H. unfold Gen_Open2N2w.pvCalcShortHash, Gen_Open2N2w.hashCodeShift.
+  change (wrapU 64 (wrapU 64 (wrapU 64 (8 * 8) - wrapU 64 (2 * 8)) + 1)) with 49. rewrite Z.shiftr_div_pow2 by lia.
+  assert (0 <= hc / 2 ^ 49 < 2 ^ 15).
+  { split; [apply Z.div_pos; lia|]. apply Z.div_lt_upper_bound; [lia|]. change (2 ^ 49 * 2 ^ 15) with (2 ^ 64). lia. }
+  rewrite wrapU_small; lia.
+Qed.
+
+Theorem open2n2w_find_complete (h : Z -> Z) : (forall k, 0 <= h k < 2 ^ 64) -> forall k its empties i,
+  Forall (fun s => 32768 <= s) empties ->
+  find_sh (map (tag h Gen_Open2N2w.pvCalcShortHash) its ++ empties) its (Gen_Open2N2w.pvCalcShortHash (h k)) k i = Some (bfind k its i).
+Proof. intros Hh k. apply bucket_find_complete. intros k0. apply open2n2w_sh_lt. apply Hh. Qed.
+
+(* ---------- the stored bytes stay in step with the items over every bucket history ----------
+   bucket history = AddCrt (append the item; write ITS short hash into the next slot) and Remove(pos) (the item AND the byte of
+   the last occupied slot move into the hole -- what the Remove functions of LimP4 / Open2N2 / OpenN1 do to shortHashes[],
+   and Open2N2 / LimP4 also to hashProbes[]: array-level statements C12_open2n2_remove_moves_pair, C12_limp4_bucket_meta_inv
+   in props/C12 about the regenerated Remove).  Then bytes = map tag items is an invariant, i.e. the hypothesis of
+   bucket_find_complete holds after every history. *)
+Definition gbremove {A} (pos : nat) (l : list A) : list A :=
+  match rev l with
+  | [] => []
+  | z :: _ => let l' := removelast l in if Nat.eqb pos (length l') then l' else upd_nth pos z l'
+  end.
+
+Lemma gbremove_item pos (l : list item) : gbremove pos l = bremove pos l.
+Proof. reflexivity. Qed.
+
+Lemma upd_nth_map {A C} (f : A -> C) l : forall n x, map f (upd_nth n x l) = upd_nth n (f x) (map f l).
+Proof. induction l; intros n x; destruct n; simpl; auto. f_equal. auto. Qed.
+
+Lemma removelast_map {A C} (f : A -> C) l : map f (removelast l) = removelast (map f l).
+Proof. induction l as [|a [|b r] IH]; simpl in *; auto. f_equal. exact IH. Qed.
+
+Lemma gbremove_map {A C} (f : A -> C) pos l : map f (gbremove pos l) = gbremove pos (map f l).
+Proof.
+  unfold gbremove. rewrite <- map_rev. destruct (rev l) as [|z r]; simpl; auto.
+  rewrite <- removelast_map, map_length. destruct (Nat.eqb pos (length (removelast l))); auto. apply upd_nth_map.
+Qed.
+
+Inductive bop : Type := BAdd (kv : item) | BRemove (pos : nat).
+
+Section InStep.
+  Variable tagf : item -> Z.
+  Definition bstep (st : list Z * list item) (o : bop) : list Z * list item :=
+    match o with
+    | BAdd kv => (fst st ++ [tagf kv], snd st ++ [kv])
+    | BRemove pos => (gbremove pos (fst st), bremove pos (snd st))
+    end.
+
+  Theorem bucket_bytes_in_step : forall os st, fst st = map tagf (snd st) ->
+    fst (fold_left bstep os st) = map tagf (snd (fold_left bstep os st)).
+  Proof.
+    induction os as [|o os IH]; intros st H; simpl; auto. apply IH.
+    destruct o; simpl.
+    - rewrite H, map_app. reflexivity.
+    - rewrite H. rewrite <- gbremove_item. symmetry. apply gbremove_map.
+  Qed.
+End InStep.
+
+(* hence, after ANY bucket history from the empty bucket, the filter finds exactly what the key search finds *)
+Theorem bucket_find_complete_all_histories (h : Z -> Z) (calcSH : Z -> Z) (emptyFrom : Z) :
+  (forall k, calcSH (h k) < emptyFrom) -> forall os k empties i, Forall (fun s => emptyFrom <= s) empties ->
+    let st := fold_left (bstep (tag h calcSH)) os ([], []) in
+    find_sh (fst st ++ empties) (snd st) (calcSH (h k)) k i = Some (bfind k (snd st) i).
+Proof.
+  intros Hsh os k empties i F. cbv zeta.
+  rewrite (bucket_bytes_in_step (tag h calcSH) os ([], []) eq_refl). apply (bucket_find_complete h calcSH emptyFrom); auto.
+Qed.
